@@ -97,6 +97,9 @@ def requests(ctx):
         if "".join(seq).strip("+") != "".join(seq) or "++" in "".join(seq) or all(x == "+" for x in seq):
             continue
         ill.append(("cx_views", [seq, list(s2), [0, 1, 2, 3, 4]]))
+    # no strands at all / lengths that differ: ObjectInitError
+    ill += [("cx_views", [sq, list(st), [0, 1, 2, 3, 4]]) for sq, st in
+            [(["+"], "+"), ([], ""), (["+", "+"], "++"), (["+"], "."), (["a"], ""), (["a", "+"], "(+)"), (["a"], "+")]]
     batches["views/ill-formed"] = ill
     # domain complement names
     batches["toggle"] = [("toggle", n) for n in ["a", "a*", "b", "long_name", "long_name*", "x1", "x1*", "t**"]]
